@@ -674,15 +674,18 @@ impl<T> TooDee<T> {
     {
         assert!(index <= self.num_rows);
         let mut iter = data.into_iter();
-        if self.num_rows == 0 {
-            self.num_cols = iter.len();
+        let num_rows = self.num_rows;
+        // The dimensions are only updated once the new row is in place (see below).
+        let num_cols = if num_rows == 0 {
+            iter.len()
         } else {
             assert_eq!(self.num_cols, iter.len());
-        }
+            self.num_cols
+        };
         
-        self.reserve(self.num_cols);
+        self.reserve(num_cols);
 
-        let start = index * self.num_cols;
+        let start = index * num_cols;
         let len = self.data.len();
 
         unsafe {
@@ -693,10 +696,16 @@ impl<T> TooDee<T> {
             // - append the new row to the array and use `slice.rotate...()` to shuffle everything into place.
             // - store the new row data in a temporary location before shifting the memory and inserting the row.
             self.data.set_len(start);
+            // While `iter` runs, the dimensions describe the truncated `Vec` so that the array
+            // remains valid if `iter.next()` panics.
+            self.num_rows = index;
+            if index == 0 {
+                self.num_cols = 0;
+            }
             
             let mut p = self.data.as_mut_ptr().add(start);
             // shift everything to make space for the new row
-            let suffix = p.add(self.num_cols);
+            let suffix = p.add(num_cols);
             ptr::copy(p, suffix, len - start);
             
             // Only iterates a maximum of `self.num_cols` times.
@@ -712,12 +721,13 @@ impl<T> TooDee<T> {
             
             debug_assert!(iter.next().is_none(), "iterator not exhausted");
 
-            self.data.set_len(len + self.num_cols);
+            self.data.set_len(len + num_cols);
         }
 
-        // update the number of rows
-        if self.num_cols > 0 {
-            self.num_rows += 1;
+        // update the dimensions
+        if num_cols > 0 {
+            self.num_cols = num_cols;
+            self.num_rows = num_rows + 1;
         }
 
     }
